@@ -224,8 +224,11 @@ class Mode(LogMixin):
 
         self._setup_device_control_events()
 
+        # do not forward the QueuedEvent of the event which started us: mode_(name)_starting is a queue event
+        # of its own and its handlers must get their own (unlocked) queue
+        starting_kwargs = {k: v for k, v in kwargs.items() if k != 'queue'}
         self.machine.events.post_queue(event=MODE_STARTING_EVENT_TEMPLATE.format(self.name),
-                                       callback=self._started, **kwargs)
+                                       callback=self._started, **starting_kwargs)
         '''event: mode_(name)_starting
 
         desc: The mode called "name" is starting.
